@@ -50,13 +50,15 @@ def mesh_topology(n, edges, lengths='equal', style='plain', trx=True):
 
 
 def request(rid, src, dst, trx_type='Voyager', mode='mode 1', spacing=50e9, bandwidth=100e9, bidir=False, include=None,
-            hop='STRICT', n=None, m=None, power=None, nb_channel=None, slots=None):
+            hop='STRICT', n=None, m=None, power=None, nb_channel=None, slots=None, tx_power=None):
     """one path-request entry of a service document; include = list of uids or (uid, hop-type) pairs"""
     te = {'technology': 'flexi-grid', 'trx_type': trx_type, 'trx_mode': mode,
           'effective-freq-slot': slots if slots is not None else [{'N': n, 'M': m}],
           'spacing': spacing, 'max-nb-of-channel': nb_channel, 'output-power': power, 'path_bandwidth': bandwidth}
     r = {'request-id': str(rid), 'source': src, 'destination': dst, 'src-tp-id': src, 'dst-tp-id': dst,
          'bidirectional': bidir, 'path-constraints': {'te-bandwidth': te}}
+    if tx_power is not None:
+        te['tx_power'] = tx_power
     if include:
         objs = []
         for k, x in enumerate(include):
